@@ -78,6 +78,10 @@ package resolver
 //@   abstract
 //@   nosafety all pre
 //@   assert at call (*middleware/resolver.Resolver).resolve#1: calls("middleware.DebitRecursionWork") == 1
+//@   # C13: nothing request-local is written back to the shared store
+//@   assert at call (middleware.CutStore).SetFromResponseWithCut#1: !lastret("middleware/resolver.requestLocalFailure")
+//@   assert at call (middleware.Store).SetFromResponse#1: !lastret("middleware/resolver.requestLocalFailure")
+//@   assert at call middleware/resolver.requestLocalFailure#1: arg0 == ctx && arg1 == resp
 //@   note C08: what a sub-query stores in the answer cache is bounded by the cut its own resolution walked
 //@   assert at call (middleware.CutStore).SetFromResponseWithCut#1: arg1 == resp && (lastret("middleware.ResponseMetaFrom") != nil ==> arg3 == lastret("(*middleware.ResponseMeta).Cut") && arg4 == lastret("(*middleware.ResponseMeta).Cut", 1)) && (lastret("middleware.ResponseMetaFrom") == nil ==> tzero(arg3))
 //@   assert at call (middleware.Store).SetFromResponse#1: arg1 == resp && (lastret("middleware.ResponseMetaFrom") != nil ==> arg3 == lastret("(*middleware.ResponseMeta).Cut")) && (lastret("middleware.ResponseMetaFrom") == nil ==> tzero(arg3))
@@ -747,3 +751,14 @@ package resolver
 //@   abstract
 //@   nosafety all pre
 //@   assert at call (middleware.ResolutionFailureStore).RecordZoneFailure#1: calls("middleware.ResponseMetaFrom") + calls("(*middleware.ResponseMeta).Cut") >= 1
+
+//@ # ---- C13 ("failures local to one request (... optional enrichment) never become shared state"): an internal lookup's
+//@ # response is written back to the shared store only if it is not a request-local failure - a failure-class response
+//@ # learned in a best-effort tree or after the caller's own context ended (the store files a failure response as a
+//@ # shared failure entry)
+//@ func requestLocalFailure
+//@   abstract
+//@   nosafety all pre
+//@   assert at call internal/dnsutil.ClassifyResponse#1: arg0 == resp
+//@   assert at return#1: !result && lastret("internal/dnsutil.ClassifyResponse") != dnsutil.TypeServerFailure
+//@   assert at return#2: lastret("internal/dnsutil.ClassifyResponse") == dnsutil.TypeServerFailure && result == (lastret("middleware.IsBestEffortRecursionWork") || lastret("internal/contextutil.EffectiveError") != nil)
